@@ -50,7 +50,7 @@ def clog2(n): return max(1, (n - 1).bit_length())
 
 class Sig:
   """a readable, fully defined Bits-typed place: text, width, whether it can be sliced (a signal / field / element)"""
-  def __init__(s, text, w, sliceable=True): s.text, s.w, s.sliceable = text, w, sliceable
+  def __init__(s, text, w, sliceable=True, net_ok=True): s.text, s.w, s.sliceable, s.net_ok = text, w, sliceable, net_ok
 
 class StructT:
   def __init__(s, name, fields): s.name, s.fields = name, fields     # fields: [(fname, ('bits', w) | ('struct', StructT) | ('list', n, elt))]
@@ -78,6 +78,11 @@ class Gen:
   def __init__(s, rng, name, depth=0, size='medium', uid='', focus=None):
     s.rng, s.name, s.depth, s.size, s.uid = rng, name, depth, size, uid
     s.focus = focus
+    # known-defect shapes are generated only in a fraction of the designs, so that the other designs can expose
+    # NEW kinds of disagreement (each shape also has directed minimal designs, see directed_designs below)
+    s.allow_narrow = rng.random() < 0.3       # constant operands wider than the context (candidate defect F4)
+    s.allow_sext_expr = rng.random() < 0.12   # sext( <operator expression> )
+    s.allow_reduce_expr = rng.random() < 0.12 # reduce_*( <operator expression> )
     s.pre = []            # class-level preamble lines (struct types, child classes)
     s.head = []           # construct(): local constants
     s.lines = []          # construct(): declarations, blocks, connects
@@ -123,115 +128,143 @@ class Gen:
 
   # ------------------------------------------------------------------ constant integer expressions (F4 shape)
   def const_expr(s, w, hi=None):
-    """(text, value): a python-int expression with 0 <= value < 2^w (and <= hi) built from closure/global ints"""
+    """(text, value): a python-int expression with 0 <= value < 2^w (and <= hi) built from closure/global ints.
+    Unless s.allow_narrow, every integer that occurs in it also fits w bits (nothing is narrowed when emitted)."""
     rng = s.rng
     top = (1 << w) - 1 if hi is None else min(hi, (1 << w) - 1)
+    lim = (1 << w) - 1
     target = rng.choice([0, 1, top, top // 2, rng.randrange(0, top + 1), rng.randrange(0, top + 1)])
     target = max(0, min(target, top))
-    r = rng.random()
-    if r < 0.25: return str(target), target
-    form = rng.choice(['shr', 'sub', 'mod', 'and', 'add', 'mul', 'shr', 'mod', 'sub', 'shl', 'nest'])
+    if rng.random() < 0.25: return str(target), target
     def cname(v):
       for n, x in s.consts:
         if x == v and rng.random() < 0.7: return n
       n = f'k{len(s.consts)}'
       s.consts.append((n, v)); s.head.append(f'{n} = {v}')
       return n
+    form = rng.choice(['shr', 'sub', 'mod', 'and', 'add', 'mul', 'shr', 'mod', 'sub', 'shl', 'nest'])
+    narrow = s.allow_narrow
+    ok = lambda *xs: narrow or all(0 <= x <= lim for x in xs)
     if form == 'shr':
-      k = rng.randrange(1, 4); v = (target << k) | rng.randrange(0, 1 << k)
-      s.feat('const:>>'); return f'({cname(v)} >> {k})', target
+      k = rng.randrange(1, 4)
+      v = ((target << k) | rng.randrange(0, 1 << k)) if narrow else rng.randrange(0, lim + 1)
+      t = v >> k
+      if ok(v, k) and t <= top: s.feat('const:>>'); return f'({cname(v)} >> {k})', t
     if form == 'sub':
-      m = rng.randrange(1, 9); s.feat('const:-'); return f'({cname(target + m)} - {m})', target
+      m = rng.randrange(1, 9)
+      if ok(target + m, m): s.feat('const:-'); return f'({cname(target + m)} - {m})', target
     if form == 'mod':
       m = rng.choice([2, 4, 8, 3, 5, 16]); t = target % m; v = t + m * rng.randrange(0, 5)
-      s.feat('const:%'); return f'({cname(v)} % {m})', t
+      if ok(v, m): s.feat('const:%'); return f'({cname(v)} % {m})', t
     if form == 'and':
-      m = rng.choice([1, 3, 7, 15, 6]); v = rng.randrange(0, 64); t = v & m
-      if t > top: return str(target), target
-      s.feat('const:&'); return f'({cname(v)} & {m})', t
+      m = rng.choice([1, 3, 7, 15, 6]); v = rng.randrange(0, 64 if narrow else lim + 1); t = v & m
+      if t <= top and ok(v, m): s.feat('const:&'); return f'({cname(v)} & {m})', t
     if form == 'add':
       a = rng.randrange(0, target + 1); s.feat('const:+'); return f'({cname(a)} + {target - a})', target
     if form == 'mul':
       m = rng.choice([2, 3]); t = (target // m) * m
-      s.feat('const:*'); return f'({cname(t // m)} * {m})', t
+      if ok(m): s.feat('const:*'); return f'({cname(t // m)} * {m})', t
     if form == 'shl':
       k = rng.randrange(1, 3); t = (target >> k) << k
-      s.feat('const:<<'); return f'({cname(t >> k)} << {k})', t
-    # nested: ((a - b) >> k)
-    k = rng.randrange(1, 3); m = rng.randrange(1, 5); v = ((target << k) | rng.randrange(0, 1 << k)) + m
-    s.feat('const:nested'); return f'(({cname(v)} - {m}) >> {k})', target
+      if ok(k): s.feat('const:<<'); return f'({cname(t >> k)} << {k})', t
+    if form == 'nest':
+      k = rng.randrange(1, 3); m = rng.randrange(1, 5); v = ((target << k) | rng.randrange(0, 1 << k)) + m
+      if ok(v, m, k): s.feat('const:nested'); return f'(({cname(v)} - {m}) >> {k})', target
+    return str(target), target
 
   # ------------------------------------------------------------------ expressions
-  def leaf(s, w):
+  # Every generator returns (text, is_const).  pymtl3's type checker FOLDS an operator whose operands are all
+  # constants and re-types the result by its value, which makes it reject width-strict uses of such a node; the
+  # generator therefore never builds an operator with only constant operands (int constant sub-expressions are
+  # generated on purpose, by const_expr, as direct operands of an operator whose other operand is a signal).
+  def sig_leaf(s, w):
     rng = s.rng
     same = [a for a in s.avail if a.w == w]
     wider = [a for a in s.avail if a.w > w and a.sliceable]
     r = rng.random()
-    if same and r < 0.55: return rng.choice(same).text
-    if wider and r < 0.8:
+    if same and (r < 0.6 or not wider): return rng.choice(same).text
+    if wider:
       a = rng.choice(wider); lo = rng.randrange(0, a.w - w + 1)
       if w == 1 and rng.random() < 0.6: s.feat('bitsel'); return f'{a.text}[{lo}]'
       s.feat('slice'); return f'{a.text}[{lo}:{lo + w}]'
+    narrower = [a for a in s.avail if a.w < w]
+    a = rng.choice(narrower); s.feat('zext'); return f'zext( {a.text}, {w} )'
+
+  def leaf(s, w):
+    rng = s.rng
+    r = rng.random()
+    if r < 0.72: return s.sig_leaf(w), False
     ls = [l for l in s.lists if l[2] == w]
-    if ls and r < 0.88:
+    if ls and r < 0.84:
       t, n, _ = rng.choice(ls)
       sel = [a for a in s.avail if a.w == clog2(n) and (1 << a.w) == n]
-      if sel and rng.random() < 0.6: s.feat('dyn-index'); return f'{t}[ {rng.choice(sel).text} ]'
-      return f'{t}[{rng.randrange(n)}]'
+      if sel and rng.random() < 0.6: s.feat('dyn-index'); return f'{t}[ {rng.choice(sel).text} ]', False
+      return f'{t}[{rng.randrange(n)}]', False
     bc = [b for b in s.bconsts if b[1] == w]
-    if bc and r < 0.93: s.feat('closure-bits'); return rng.choice(bc)[0]
+    if bc and r < 0.9: s.feat('closure-bits'); return rng.choice(bc)[0], True
     if r < 0.97 and w <= 128:
       if rng.random() < 0.5:
-        t, v = s.const_expr(w); s.feat('BitsN(const-expr)'); return f'Bits{w}( {t} )'
-      return f'Bits{w}( {rng.randrange(0, 1 << min(w, 16))} )'
-    if same: return rng.choice(same).text
-    if wider:
-      a = rng.choice(wider); lo = rng.randrange(0, a.w - w + 1); return f'{a.text}[{lo}:{lo + w}]'
-    narrower = [a for a in s.avail if a.w < w]
-    if narrower:
-      a = rng.choice(narrower); s.feat('zext'); return f'zext( {a.text}, {w} )'
-    return f'Bits{w}( {rng.randrange(0, 1 << min(w, 8))} )'
+        t, v = s.const_expr(w); s.feat('BitsN(const-expr)'); return f'Bits{w}( {t} )', True
+      return f'Bits{w}( {rng.randrange(0, 1 << min(w, 16))} )', True
+    return s.sig_leaf(w), False
 
-  def expr(s, w, d=0):
+  def expr(s, w, d=0): return s.expr2(w, d)[0]
+  def cond(s): return s.nonconst(1, 1)
+  def nonconst(s, w, d):
+    t, c = s.expr2(w, d)
+    return s.sig_leaf(w) if c else t
+
+  def expr2(s, w, d=0):
     rng = s.rng
     if d >= 3 or rng.random() < 0.25 + 0.15 * d: return s.leaf(w)
     r = rng.random()
-    E = lambda ww: s.expr(ww, d + 1)
+    E = lambda ww: s.expr2(ww, d + 1)
+    N = lambda ww: s.nonconst(ww, d + 1)
+    def pair(ww):
+      (a, ca), (b, cb) = E(ww), E(ww)
+      if ca and cb:
+        if rng.random() < 0.5: a = s.sig_leaf(ww)
+        else: b = s.sig_leaf(ww)
+      return a, b
     if w == 1 and r < 0.35:
       k = rng.random()
       ow = s.w() if rng.random() < 0.7 else rng.choice([2, 3, 4])
       op = rng.choice(['<', '<=', '>', '>=', '==', '!='])
       if k < 0.45:
         t, v = s.const_expr(ow); s.feat('cmp-const'); s.feat('cmp')
-        return f'({E(ow)} {op} {t})' if rng.random() < 0.8 else f'({t} {op} {E(ow)})'
-      if k < 0.8: s.feat('cmp'); return f'({E(ow)} {op} {E(ow)})'
-      f = rng.choice(['reduce_and', 'reduce_or', 'reduce_xor']); s.feat(f); return f'{f}( {E(ow)} )'
+        return (f'({N(ow)} {op} {t})' if rng.random() < 0.8 else f'({t} {op} {N(ow)})'), False
+      if k < 0.8:
+        a, b = pair(ow); s.feat('cmp'); return f'({a} {op} {b})', False
+      f = rng.choice(['reduce_and', 'reduce_or', 'reduce_xor']); s.feat(f)
+      if s.allow_reduce_expr: s.feat('reduce-of-expr'); return f'{f}( {N(ow)} )', False
+      return f'{f}( {s.sig_leaf(ow)} )', False
     if r < 0.45:
       op = rng.choice(['+', '-', '&', '|', '^', '+', '-', '*'])
       if rng.random() < 0.3:
         t, v = s.const_expr(w); s.feat('arith-const')
-        return f'({E(w)} {op} {t})' if rng.random() < 0.8 else f'({t} {op} {E(w)})'
-      s.feat('arith:' + op); return f'({E(w)} {op} {E(w)})'
+        return (f'({N(w)} {op} {t})' if rng.random() < 0.8 else f'({t} {op} {N(w)})'), False
+      a, b = pair(w); s.feat('arith:' + op); return f'({a} {op} {b})', False
     if r < 0.57:
       op = rng.choice(['<<', '>>'])
-      k = rng.random()
-      if k < 0.5:
-        t, v = s.const_expr(w, hi=w + 2); s.feat('shift-const'); return f'({E(w)} {op} {t})'
-      s.feat('shift-var'); return f'({E(w)} {op} {E(w)})'
-    if r < 0.64: s.feat('invert'); return f'(~{E(w)})'
-    if r < 0.74: s.feat('ifexp'); return f'({E(w)} if {E(1)} else {E(w)})'
+      if rng.random() < 0.5:
+        t, v = s.const_expr(w, hi=w + 2); s.feat('shift-const'); return f'({N(w)} {op} {t})', False
+      a, b = pair(w); s.feat('shift-var'); return f'({a} {op} {b})', False
+    if r < 0.64: s.feat('invert'); return f'(~{N(w)})', False
+    if r < 0.74: s.feat('ifexp'); return f'({E(w)[0]} if {N(1)} else {E(w)[0]})', False
     if r < 0.82 and w >= 2:
       a = rng.randrange(1, w); s.feat('concat')
       if w >= 3 and rng.random() < 0.3:
         b = rng.randrange(1, w - a + 1) if w - a > 1 else 1
-        if w - a - b > 0: return f'concat( {E(a)}, {E(b)}, {E(w - a - b)} )'
-      return f'concat( {E(a)}, {E(w - a)} )'
+        if w - a - b > 0: return f'concat( {N(a)}, {E(b)[0]}, {E(w - a - b)[0]} )', False
+      return f'concat( {N(a)}, {E(w - a)[0]} )', False
     if r < 0.9 and w >= 2:
       k = rng.randrange(1, w); f = rng.choice(['zext', 'sext']); s.feat(f)
-      return f'{f}( {E(k)}, {w} )'
+      if f == 'sext' and not s.allow_sext_expr: return f'sext( {s.sig_leaf(k)}, {w} )', False
+      if f == 'sext': s.feat('sext-of-expr')
+      return f'{f}( {N(k)}, {w} )', False
     if r < 0.96 and w < 128:
       k = rng.choice([x for x in WIDTHS if x > w]); s.feat('trunc')
-      return f'trunc( {E(k)}, {w} )'
+      return f'trunc( {N(k)}, {w} )', False
     return s.leaf(w)
 
   # ------------------------------------------------------------------ declarations
@@ -246,20 +279,22 @@ class Gen:
     return f's.{n}'
   def add_struct_avail(s, text, T):
     s.struct_sigs.append((text, T))
-    for t, w in leaves(text, ('struct', T)): s.avail.append(Sig(t, w))
+    # (a connect() whose source is a field of a struct written as a whole by a block makes pymtl3 raise NoWriterError,
+    #  so struct leaves are never used as the source of a net)
+    for t, w in leaves(text, ('struct', T)): s.avail.append(Sig(t, w, net_ok=False))
 
   def assign_stmts(s, target, w, op):
     """statements that define `target` (a w-bit place) completely"""
     rng = s.rng
     r = rng.random()
     if r < 0.2:
-      s.feat('if'); c = s.expr(1)
+      s.feat('if'); c = s.cond()
       out = [f'if {c}:', f'  {target} {op} {s.expr(w)}']
-      if rng.random() < 0.4: out += [f'elif {s.expr(1)}:', f'  {target} {op} {s.expr(w)}']; s.feat('elif')
+      if rng.random() < 0.4: out += [f'elif {s.cond()}:', f'  {target} {op} {s.expr(w)}']; s.feat('elif')
       return out + ['else:', f'  {target} {op} {s.expr(w)}']
     if r < 0.3:
       s.feat('default-then-if')
-      return [f'{target} {op} {s.expr(w)}', f'if {s.expr(1)}:', f'  {target} {op} {s.expr(w)}']
+      return [f'{target} {op} {s.expr(w)}', f'if {s.cond()}:', f'  {target} {op} {s.expr(w)}']
     if r < 0.42 and op == '@=':
       s.ntmp += 1; t = f't{s.ntmp}'; tw = w if rng.random() < 0.6 else s.w()
       s.feat('tmpvar')
@@ -272,6 +307,13 @@ class Gen:
     rng = s.rng
     same = [t for t, TT in s.struct_sigs if TT is T and t != target]
     r = rng.random()
+    if op == '<<=':      # update_ff may only write whole top-level signals
+      flat = all(ft[0] == 'bits' for _, ft in T.fields)
+      if same and (r < 0.5 or not flat): s.feat('struct-copy'); return [f'{target} {op} {rng.choice(same)}']
+      if flat:
+        s.feat('struct-inst')
+        return [f'{target} {op} {T.name}( ' + ', '.join(s.expr(ft[1]) for _, ft in T.fields) + ' )']
+      return None
     if same and r < 0.35: s.feat('struct-copy'); return [f'{target} {op} {rng.choice(same)}']
     if same and r < 0.55:
       s.feat('struct-copy-then-field')
@@ -337,7 +379,8 @@ class Gen:
       t = s.decl(kind, w); regs.append((t, w)); s.avail.append(Sig(t, w))
     sregs = []
     for T in s.structs:
-      if rng.random() < 0.3:
+      flat = all(ft[0] == 'bits' for _, ft in T.fields)
+      if rng.random() < 0.3 and (flat or any(TT is T for _, TT in s.struct_sigs)):
         t = s.decl_struct('Wire' if rng.random() < 0.6 else 'OutPort', T); sregs.append((t, T)); s.add_struct_avail(t, T); s.feat('struct-reg')
     listreg = None
     if rng.random() < 0.3:
@@ -386,20 +429,21 @@ class Gen:
         if style == 'reset':
           rv = rng.randrange(0, 1 << min(w, 8)); s.feat('ff-reset')
           body += ['if s.reset:', f'  {t} <<= {rv}', 'else:'] + ['  ' + x for x in s.assign_stmts(t, w, '<<=')]
-        elif style == 'enable': s.feat('ff-enable'); body += [f'if {s.expr(1)}:', f'  {t} <<= {s.expr(w)}']
-        elif style == 'lastwins': s.feat('ff-last-wins'); body += [f'{t} <<= {s.expr(w)}', f'if {s.expr(1)}:', f'  {t} <<= {s.expr(w)}']
+        elif style == 'enable': s.feat('ff-enable'); body += [f'if {s.cond()}:', f'  {t} <<= {s.expr(w)}']
+        elif style == 'lastwins': s.feat('ff-last-wins'); body += [f'{t} <<= {s.expr(w)}', f'if {s.cond()}:', f'  {t} <<= {s.expr(w)}']
         else: body += s.assign_stmts(t, w, '<<=')
       s.ff_block(body)
     for t, T in sregs:
       body = s.write_struct(t, T, '<<=')
-      if rng.random() < 0.5: body = ['if s.reset:', f'  {t} <<= {T.name}()', 'else:'] + ['  ' + b for b in body]; s.feat('ff-struct-reset')
+      if body is None: body = [f'{t} <<= {t}']
+      if rng.random() < 0.4: body = [f'if {s.cond()}:'] + ['  ' + b for b in body]; s.feat('ff-struct-enable')
       s.ff_block(body)
     if listreg:
       t, n, w = listreg; s.feat('ff-list-shift')
       k = rng.random()
       if k < 0.5: body = [f'{t}[0] <<= {s.expr(w)}', f'for i in range({n - 1}):', f'  {t}[i+1] <<= {t}[i]']
-      elif k < 0.8: body = [f'{t}[{n - 1}] <<= {s.expr(w)}', f'for i in range({n - 2}, -1, -1):', f'  {t}[i] <<= {t}[i+1]']; s.feat('for-neg-step')
-      else: body = [f'for i in range({n}):', f'  if {s.expr(1)}:', f'    {t}[i] <<= {s.expr(w)}']
+      elif k < 0.8: body = [f'{t}[0] <<= {s.expr(w)}', f'for i in range({n - 1}, 0, -1):', f'  {t}[i] <<= {t}[i-1]']; s.feat('for-neg-step')
+      else: body = [f'for i in range({n}):', f'  if {s.cond()}:', f'    {t}[i] <<= {s.expr(w)}']
       s.ff_block(body)
     return s
 
@@ -441,13 +485,13 @@ class Gen:
       s.children.append(g); s.feat('child:generated')
       s.lines.append(f's.{cn} = {g.name}()')
       for t, w in g.in_ports: s.connect_to(f's.{cn}.{t[2:]}', w)
-      for a in g.outputs(): s.avail.append(Sig(f's.{cn}.{a[0][2:]}', a[1]))
       # struct / list inputs of the child that are not plain: drive them
       for t, T in g.struct_inputs():
         # child struct types are local to the child: connect fieldwise from a block
         body = [f's.{cn}.{lt[2:]} @= {s.expr(w)}' for lt, w in leaves(t, ('struct', T))]
         s.comb_block(body)
       for t, w in g.other_inputs(): s.connect_to(f's.{cn}.{t[2:]}', w)
+      for a in g.outputs(): s.avail.append(Sig(f's.{cn}.{a[0][2:]}', a[1]))
 
   def outputs(s):
     """plain Bits OutPorts of this component: (text, width)"""
@@ -472,15 +516,15 @@ class Gen:
   def connect_to(s, target, w):
     """drive a w-bit place (a child input) from available sources"""
     rng = s.rng
-    same = [a for a in s.avail if a.w == w and a.sliceable]
-    wider = [a for a in s.avail if a.w > w and a.sliceable]
+    same = [a for a in s.avail if a.w == w and a.sliceable and a.net_ok]
+    wider = [a for a in s.avail if a.w > w and a.sliceable and a.net_ok]
     r = rng.random()
     if same and r < 0.5: s.lines.append(f'{target} //= {rng.choice(same).text}'); s.feat('connect'); return
     if wider and r < 0.7:
       a = rng.choice(wider); lo = rng.randrange(0, a.w - w + 1)
       s.lines.append(f'{target} //= {a.text}[{lo}:{lo + w}]'); s.feat('connect-slice'); return
     if r < 0.78: s.lines.append(f'{target} //= {rng.randrange(0, 1 << min(w, 8))}'); s.feat('connect-const'); return
-    if r < 0.9: s.lines.append(f'{target} //= lambda: {s.expr(w)}'); s.feat('lambda'); return
+    if r < 0.9 and re.fullmatch(r's\.\w+', target): s.lines.append(f'{target} //= lambda: {s.nonconst(w, 1)}'); s.feat('lambda'); return
     s._tmp_added = []
     s.comb_block(s.finish_tmp(s.assign_stmts(target, w, '@=')))
 
@@ -506,16 +550,17 @@ class Gen:
       for i in range(n): body += s.assign_stmts(f's.{nm}[{i}]', w, '@=')
     else:
       s.feat('for:' + form)
-      hdr = {'range1': f'for i in range({n}):', 'range2': f'for i in range(0, {n}):', 'range3': f'for i in range(0, {n}, 1):',
-             'neg': f'for i in range({n - 1}, -1, -1):'}[form]
+      hdr = {'range1': f'for i in range({n}):', 'range2': f'for i in range(1, {n}):', 'range3': f'for i in range(0, {n}, 1):',
+             'neg': f'for i in range({n - 1}, 0, -1):'}[form]
       if form == 'range3' and n >= 4 and rng.random() < 0.5:
         # two interleaved loops with step 2
         s.feat('for:step2')
         body = [f'for i in range(0, {n}, 2):', f'  s.{nm}[i] @= {s.loop_rhs(w, srcs)}', f'for i in range(1, {n}, 2):', f'  s.{nm}[i] @= {s.loop_rhs(w, srcs)}']
       else:
         inner = [f's.{nm}[i] @= {s.loop_rhs(w, srcs)}']
-        if rng.random() < 0.3: inner = [f'if {s.expr(1)}:', f'  s.{nm}[i] @= {s.loop_rhs(w, srcs)}', 'else:', f'  s.{nm}[i] @= {s.expr(w)}']; s.feat('for-if')
+        if rng.random() < 0.3: inner = [f'if {s.cond()}:', f'  s.{nm}[i] @= {s.loop_rhs(w, srcs)}', 'else:', f'  s.{nm}[i] @= {s.expr(w)}']; s.feat('for-if')
         body = [hdr] + ['  ' + x for x in inner]
+        if form in ('neg', 'range2'): body += s.assign_stmts(f's.{nm}[0]', w, '@=')
     s.comb_block(s.finish_tmp(body))
     for i in range(n): s.avail.append(Sig(f's.{nm}[{i}]', w))
     if n & (n - 1) == 0: s.lists.append((f's.{nm}', n, w))
@@ -590,3 +635,30 @@ class {cls}( Component ):
 '''
     out.append((cls, src, op))
   return out
+
+def directed_other_designs():
+  """(class name, source, tag): minimal designs for the other defect shapes found by the random designs, plus controls"""
+  def mk(cls, decls, stmt):
+    return f'''from pymtl3 import *
+class {cls}( Component ):
+  def construct( s ):
+    {decls}
+    @update
+    def up():
+      {stmt}
+'''
+  io = 's.a = InPort( 4 ); s.b = InPort( 4 ); s.c = InPort( 1 ); s.w = InPort( 8 ); '
+  return [
+    ('D_sext_trunc',  mk('D_sext_trunc',  io + 's.o = OutPort( 8 )', 's.o @= sext( trunc( s.w, 4 ), 8 )'), 'sext-of-trunc'),
+    ('D_sext_binop',  mk('D_sext_binop',  io + 's.o = OutPort( 8 )', 's.o @= sext( s.a + s.b, 8 )'), 'sext-of-binop'),
+    ('D_sext_ifexp',  mk('D_sext_ifexp',  io + 's.o = OutPort( 8 )', 's.o @= sext( s.a if s.c else s.b, 8 )'), 'sext-of-ifexp'),
+    ('D_red_xor',     mk('D_red_xor',     io + 's.o = OutPort( 1 )', 's.o @= reduce_xor( s.a ^ s.b )'), 'reduce-of-binop'),
+    ('D_red_or',      mk('D_red_or',      io + 's.o = OutPort( 1 )', 's.o @= reduce_or( s.a & s.b )'), 'reduce-of-binop'),
+    ('D_red_and',     mk('D_red_and',     io + 's.o = OutPort( 1 )', 's.o @= reduce_and( s.a | s.b )'), 'reduce-of-binop'),
+    # controls: the same operators on plain signals / slices / concatenations translate correctly
+    ('D_sext_sig',    mk('D_sext_sig',    io + 's.o = OutPort( 8 )', 's.o @= sext( s.a, 8 )'), 'control'),
+    ('D_sext_slice',  mk('D_sext_slice',  io + 's.o = OutPort( 8 )', 's.o @= sext( s.w[2:6], 8 )'), 'control'),
+    ('D_sext_concat', mk('D_sext_concat', io + 's.o = OutPort( 8 )', 's.o @= sext( concat( s.c, s.a[0:3] ), 8 )'), 'control'),
+    ('D_sext_inv',    mk('D_sext_inv',    io + 's.o = OutPort( 8 )', 's.o @= sext( ~s.a, 8 )'), 'control'),
+    ('D_red_sig',     mk('D_red_sig',     io + 's.o = OutPort( 1 )', 's.o @= reduce_xor( s.w ) & reduce_or( s.a ) | reduce_and( s.b )'), 'control'),
+  ]
